@@ -56,21 +56,25 @@ ASSUMPTIONS = [
 MANIFEST_ENTRY = {
     "technique": "Lean 4 theorems by induction over arbitrary event histories of an executable session model + "
                  "differential tie to real Twisted/asyncio ApplicationSession objects + Spec oracle with ddmin",
-    "text": "Proved in Lean for every event history (no length bound, both txaio scheduling modes): request ids are "
-            "((k-1) mod 2^53)+1 for the k-th request of a session object and pairwise distinct while pending (<= 2^53 "
-            "requests); each API call hands exactly one message of its type with the given URI/args/kwargs and the "
-            "option->attribute table to send(); every future is completed at most once; a table holds a request iff "
-            "the Spec has it pending (refinement invariant); a reply (type,id) completes exactly the future recorded "
-            "under (kind(type),id) with that reply's content; replies matching nothing raise ProtocolError and change "
-            "no future; progressive results call only their own call's on_progress and complete nothing. Stated in "
-            "full and refuted on concrete histories, proved as _partial: progress with details=True and absent "
-            "args/kwargs (F10), ids restarting at 1 for a second join on the same object (U5). The model is tied to "
-            "the code by running generated histories (k<=6 outstanding requests of mixed kinds, all reply "
-            "permutations for k<=4, success/error/progressive/duplicate/unknown-id/wrong-type/wrong-kind replies, all "
-            "payload shapes, interleaved EVENTs, send failures, cancels) on both frameworks.",
+    "text": "Proved in Lean for every event history (no length bound, both txaio scheduling modes, any user-code behaviour): "
+            "ids_sequential (the k-th request message of a session object carries ((k-1) mod 2^53)+1; constants regenerated "
+            "from util.IdGenerator), ids_in_range, ids_fresh (ids of outstanding requests pairwise distinct within and "
+            "across the six tables while <= 2^53 requests were sent), one_message_per_call (one message of the call's type "
+            "with the drawn id, the given URI/args/kwargs and the options' message_attr table, also when send() raises), "
+            "completes_at_most_once and never_completes_twice (no history makes resolve/reject hit a called future), "
+            "table_iff_pending (the six tables read as one map agree with the Spec's pending map), reply_routing (a reply "
+            "(type,id) completes exactly the future recorded under (kind(type),id) with that reply's content, removes it, "
+            "leaves the other tables alone), unknown_reply_is_violation (ProtocolError and no state change for unknown id, "
+            "wrong type, wrong request_type, duplicates), send_failure. Stated in full, refuted on concrete histories and "
+            "proved as _partial: progress_only_own_handler (F10: details=True with absent args/kwargs; and a call made "
+            "without options) and ids restarting at 1 for a second join on the same object (U5). The model is tied to the "
+            "code by generated histories (k<=6 outstanding requests of mixed kinds, all reply permutations for k<=4, "
+            "success/error/progressive/duplicate/unknown-id/wrong-type/wrong-kind replies, all payload shapes, interleaved "
+            "EVENT traffic, send failures, cancels, explicit loop iterations) on both frameworks.",
     "note": "Trusted: Lean kernel; the hand-written model (checked only by the differential run); txaio/Deferred/Future "
-            "semantics. INVOCATION traffic for live registrations and the session lifecycle are stubs of the shared "
-            "session model (C06/C10). Known findings F10 and U5 are reproduced by the check and listed.",
+            "semantics. INVOCATION traffic for live registrations and the session lifecycle are stubs of the shared session "
+            "model (C06/C10); only ProtocolError-raising INVOCATIONs are interleaved. Known findings F10, its no-options "
+            "variant and U5 are reproduced by the check and listed in known_findings.d/C04.jsonl.",
 }
 
 
@@ -253,7 +257,7 @@ def gen(ctx):
             out.append(("perm4", history(rng, kinds, order, [rng.choice(REPLY_KINDS) for _ in range(4)],
                                          traffic_p=0.2)))
     # (b) random: k in 1..6, random order, every reply kind, traffic, send failures, pump policies
-    nrand = 1500 if quick else 150000
+    nrand = 1500 if quick else 120000
     for _ in range(nrand):
         k = rng.randint(1, 6)
         kinds = [rng.choice(kinds6) for _ in range(k)]
